@@ -66,13 +66,32 @@ def rename(data, old, new, prefixed):
     return out.replace(scratch.encode(), new.encode())
 
 
+def with_bound_materials(data):
+    """give every <instance_controller> a <bind_material> (and the document the material it binds)"""
+    root = ET.fromstring(data)
+    ns = '{%s}' % docgen.NS141
+    insts = [e for e in root.iter(ns + 'instance_controller')]
+    if not insts:
+        return data
+    fx = ET.fromstring('<library_effects xmlns="%s"><effect id="c15fx"><profile_COMMON><technique sid="common"><phong><diffuse><color>1 0 0 1</color></diffuse>'
+                       '</phong></technique></profile_COMMON></effect></library_effects>' % docgen.NS141)
+    mats = ET.fromstring('<library_materials xmlns="%s"><material id="c15mat"><instance_effect url="#c15fx"/></material></library_materials>' % docgen.NS141)
+    root.insert(1, fx)
+    root.insert(2, mats)
+    for i in insts:
+        bm = ET.fromstring('<bind_material xmlns="%s"><technique_common><instance_material symbol="sym" target="#c15mat">'
+                           '<bind_vertex_input semantic="UV" input_semantic="TEXCOORD" input_set="0"/></instance_material></technique_common></bind_material>' % docgen.NS141)
+        i.insert(0, bm)
+    return ET.tostring(root)
+
+
 def make_doc(rng, i):
     """(label, bytes in NS141 default-namespace form, replay info)"""
     if i % 3 == 2:
         seed = rng.randrange(10 ** 9)
         r = random.Random('c15c/%s' % seed)
         c, exp = c19.gen_case(r)
-        return 'controller', c19.doc_xml(c).replace(c19.NS.encode(), docgen.NS141.encode()), dict(gen='c19', seed=seed)
+        return 'controller', with_bound_materials(c19.doc_xml(c).replace(c19.NS.encode(), docgen.NS141.encode())), dict(gen='c19', seed=seed)
     seed = rng.randrange(10 ** 9)
     data = docgen.generate(seed, dict(perm=(i % 2 == 0)))
     if i % 5 == 0:
@@ -87,7 +106,7 @@ def rebuild(rep):
     if rep['gen'] == 'c19':
         r = random.Random('c15c/%s' % rep['seed'])
         c, exp = c19.gen_case(r)
-        return c19.doc_xml(c).replace(c19.NS.encode(), docgen.NS141.encode())
+        return with_bound_materials(c19.doc_xml(c).replace(c19.NS.encode(), docgen.NS141.encode()))
     data = docgen.generate(rep['seed'], dict(perm=rep['perm']))
     if rep.get('damaged'):
         data = re.sub(rb'url="#geom', b'url="#missing', data, count=1)
@@ -132,7 +151,8 @@ def run(ctx):
     lines, want = [], []
     for i in range(ctx.n(110, 4000)):
         label, data, rep = make_doc(ctx.rng, i)
-        uri = ctx.rng.choice([docgen.NS15, docgen.NS15, 'urn:example:%d' % ctx.rng.randrange(1000), 'http://example.org/ns/%d' % ctx.rng.randrange(100)])
+        uri = ctx.rng.choice([docgen.NS15, docgen.NS15, 'urn:example:%d' % ctx.rng.randrange(1000), 'http://example.org/ns/%d' % ctx.rng.randrange(100),
+                              'http://example.org/my-ns/v%d#frag' % ctx.rng.randrange(9), 'urn:x-test:a~b,c?d=%d' % ctx.rng.randrange(9), 'tag:example.org,2026:collada+x'])
         prefixed = ctx.rng.random() < 0.4
         ctx.case(dict(kind=label, uri=uri, prefixed=prefixed, **rep))
         ctx.count('doc:' + label)
